@@ -11,7 +11,7 @@ SCHEDULE_DEPENDENT = True
 RULE = ('two real ActiveObjects, the real fabric; the first has 0-3 timed sources (some armed by its own handlers during a step) and 0-3 concurrent posters; stop() is '
         'called on it from a client at an arbitrary instant (idle object, mid-step, queue non-empty, the very instant a timer '
         'wakes: the scheduler decides, down to single bytecodes of stop, run_event and the timer\'s run-flag check) or from one '
-        'of its own handlers; afterwards the client posts a probe event to the second object and publishes a probe it '
+        'of its own handlers (third stratum: the handler\'s step goes on to arm a source, or a client arms one on the ended object, and a client calls stop() later: that call must silence them); afterwards the client posts a probe event to the second object and publishes a probe it '
         'subscribed to. Oracle: stop() returns (deadlock detection); after an external stop() returned the object\'s thread has '
         'ended, no further step of that object runs, none of its timer threads puts anything into its queue; the second '
         'object still dispatches the probe and the fabric still delivers the probe publication; after stop() inside a handler '
@@ -19,10 +19,10 @@ RULE = ('two real ActiveObjects, the real fabric; the first has 0-3 timed source
         'events, or at a timer\'s wake instant; distinct = distinct (where stop came from, object state at stop, sources alive) '
         'tuples.')
 ASSUMPTIONS = ['virtual time; horizon 3-6 periods after the stop']
-PROBES = ['stop_with_pending_or_midstep', 'stop_at_timer_wake_instant', 'stop_from_handler']
+PROBES = ['stop_with_pending_or_midstep', 'stop_at_timer_wake_instant', 'stop_from_handler', 'external_stop_after_handler_stop']
 PLAN = {
-  'quick': {'strata': {'external': 2500, 'from-handler': 1000}, 'wall_s': 300, 'chunk': 50, 'min_conclusive': 800},
-  'thorough': {'strata': {'external': 70000, 'from-handler': 30000}, 'wall_s': 900, 'chunk': 100, 'min_conclusive': 8000},
+  'quick': {'strata': {'external': 2500, 'from-handler': 1000, 'handler-then-external': 600}, 'wall_s': 300, 'chunk': 50, 'min_conclusive': 800},
+  'thorough': {'strata': {'external': 70000, 'from-handler': 30000, 'handler-then-external': 20000}, 'wall_s': 900, 'chunk': 100, 'min_conclusive': 8000},
 }
 
 
@@ -50,10 +50,21 @@ def generate(seed, stratum, tier):
   else:
     objs[0].setdefault('react', {})
     objs[0]['react']['SC'] = [{'op': 'stop', 'id': 9, 'max': 1}]
+    if stratum == 'handler-then-external':
+      # the step that called stop() goes on and arms a source (say the entry action of the state it moves to);
+      # the object's thread is gone when, later, another thread calls stop(): that call must still silence the source
+      if rng.random() < 0.8:
+        objs[0]['react']['SC'].append({'op': 'timed', 'sig': 'TH2', 'period': p * rng.choice([1, 2]), 'times': rng.choice([0, 0, 8]),
+                                       'deferred': rng.choice([True, False]), 'kind': rng.choice(['fifo', 'lifo']), 'id': 10, 'max': 1})
     c0.append(['post_fifo', 0, 'SC'])
     for _ in range(rng.randrange(0, 3)):
       c0.append(['post_fifo', 0, 'SA'])
     c0.append(['sleep', p * 2])
+    if stratum == 'handler-then-external':
+      if rng.random() < 0.5:
+        c0.append(['timed', 0, rng.choice(['fifo', 'lifo']), 'TB', p, 0, rng.choice([True, False]), 7])   # armed from outside on the dead object
+        c0.append(['sleep', p * rng.choice([0.5, 1, 2])])
+      c0.append(['stop', 0])
   # the rest of the system must keep working
   c0 += [['post_fifo', 1, 'SB'], ['publish', 1, 'SD', None], ['sleep', p]]
   if rng.random() < 0.5:
@@ -130,10 +141,24 @@ def judge(sc, run, sim, res):
     if ctl is not None and ctl.state != kernel.DONE:
       res.violate('thread-alive-after-stop', {'from': 'handler'}, 'a handler called stop() but the object\'s thread is still alive at the end (%s)' % ctl.desc)
       return
+  ref = st
+  if sc.get('stratum') == 'handler-then-external':
+    # sources may be armed after the handler's stop(); the stop() made later by another thread is the one that must silence them
+    ext = [x for x in run.stops if x['from'] != 'handler']
+    if not ext:
+      res.outcome, res.reason = 'inconclusive', 'the external stop was never reached'
+      return
+    ref = ext[-1]
+    if ref['end'] is None:
+      res.violate('stop-did-not-return', {'from': 'client-after-handler'}, 'the second stop() (from a client, after the handler\'s) began at seq %d and never returned; threads: %s' % (ref['begin'], ac.where(sim)))
+      return
+    sim.probe('external_stop_after_handler_stop')
+  st_end = ref['end']
   for tn, lst in sorted(ac.timer_appends(run, 0).items()):
-    late = [a for a in lst if a[0] > st['end']]
+    late = [a for a in lst if a[0] > st_end]
     if late:
-      res.violate('post-after-stop', {'n': 'one' if len(late) == 1 else 'several', 'from': 'handler' if st['from'] == 'handler' else 'client'},
+      st = ref
+      res.violate('post-after-stop', {'n': 'one' if len(late) == 1 else 'several', 'from': ('client-after-handler' if ref is not run.stops[0] else 'handler') if run.stops[0]['from'] == 'handler' else 'client'},
                   'stop() returned at seq %d (t=%.6fs) but timer thread %s still put %d event(s) into the queue: %s' % (
                     st['end'], t_of_seq.get(st['end'], 0) / 1e6, tn, len(late), [(a[0], a[3] / 1e6) for a in late[:4]]))
       return
